@@ -46,7 +46,7 @@ impl UnitLock { fn default() -> (r: Self) { UnitLock { p: 0 } } }
 //@ FROM src/tree/inner.rs :: - :: struct TreeInner
 //@ SUBST `RwLock < ( ) >` ==> `UnitLock`
 //@ SUBST `Mutex < ( ) >` ==> `UnitLock`
-/*+*/struct TreeInner {
+struct TreeInner {
     id: TreeId,
 
     memtable_id_counter: SequenceNumberCounter,
@@ -57,6 +57,8 @@ impl UnitLock { fn default() -> (r: Self) { UnitLock { p: 0 } } }
 
     version_history: Arc<RwLock<SuperVersions>>,
 
+    compaction_state: Arc<Mutex<CompactionState>>,
+
     config: Arc<Config>,
 
     stop_signal: StopSignal,
@@ -64,9 +66,7 @@ impl UnitLock { fn default() -> (r: Self) { UnitLock { p: 0 } } }
     major_compaction_lock: UnitLock,
 
     flush_lock: UnitLock,
-
-    compaction_state: Arc<Mutex<CompactionState>>,
-}/*-*/
+}
 //@ END
 
 /// id `x` is not used by any table of the version
